@@ -7,7 +7,8 @@ CONSTANTS
   Srcs <- MCSrcs
   Covers <- MCCovers
   AclSets <- AclAll
-  MaxViews = 1
+  MaxViews = 2
+  Admit <- AdmitQuick
   Borns = {"wire", "msg"}
   Answers = {"cache", "tail"}
 INIT Init
